@@ -243,6 +243,8 @@ func runStore(c storeCase) (r vf.Result) {
 		}
 	}
 	types := []pkts.PacketType{pkts.CONNECT, pkts.PINGREQ, pkts.DISCONNECT}
+	// message IDs numerically equal to those packet types (4, 22, 24): the two key spaces must not alias
+	ids := []uint16{uint16(pkts.CONNECT), uint16(pkts.PINGREQ), uint16(pkts.DISCONNECT)}
 	start := time.Now()
 	var clock int64
 	now := func() int64 { return int64(time.Since(start))*4 + atomic.AddInt64(&clock, 1)%4 }
@@ -266,11 +268,11 @@ func runStore(c storeCase) (r vf.Result) {
 				call := now()
 				switch o.Op {
 				case "Store":
-					ts.Store(uint16(o.Key), txs[o.Val])
+					ts.Store(ids[o.Key%len(ids)], txs[o.Val])
 				case "Get":
-					out.val = idOf(ts.Get(uint16(o.Key)))
+					out.val = idOf(ts.Get(ids[o.Key%len(ids)]))
 				case "Delete":
-					ts.Delete(uint16(o.Key))
+					ts.Delete(ids[o.Key%len(ids)])
 				case "StoreByType":
 					ts.StoreByType(types[o.Key%len(types)], txs[o.Val])
 				case "GetByType":
@@ -325,7 +327,7 @@ func runStore(c storeCase) (r vf.Result) {
 func TestC29Store(t *testing.T) {
 	vf.Check(t, vf.Prop[storeCase]{
 		ID: "C29", Name: "store-linearizable", MarkCurrent: true,
-		Rule: "generated concurrent programs (2-6 goroutines x 1-30 operations, released together, race-detector build) over Store/Get/Delete on message IDs {1,2}, StoreByType/GetByType/DeleteByType on 3 packet types and ClientState.Set/Get, with call/return timestamps recorded; oracle: the recorded history is linearizable against an atomic map per key space and an atomic register (porcupine v1.3.0 decides), and the race detector stays silent. Non-trivial = two goroutines operate on the same key; distinct by case.",
+		Rule: "generated concurrent programs (2-6 goroutines x 1-30 operations, released together, race-detector build) over Store/Get/Delete on the message IDs 4, 22 and 24, StoreByType/GetByType/DeleteByType on the packet types CONNECT (4), PINGREQ (22) and DISCONNECT (24), i.e. keys which are numerically equal across the two key spaces, and ClientState.Set/Get, with call/return timestamps recorded; oracle: the recorded history is linearizable against an atomic map per key space and an atomic register (porcupine v1.3.0 decides), and the race detector stays silent. Non-trivial = two goroutines operate on the same key; distinct by case.",
 		Assumptions: []string{"real goroutines on real cores, not a bubble: which overlaps occur is up to the scheduler; an undecided (timeout) linearizability search is counted as skipped"},
 		Gen: func(t *rapid.T) storeCase {
 			var c storeCase
